@@ -177,7 +177,10 @@ impl<'a> Gen<'a> {
     fn coll(&mut self, lv: &[String]) -> Coll {
         match self.rng.below(12) {
             0 => Coll::Range(Expr::int(self.rng.range(0, 2)), Expr::int(self.rng.range(1, 4))),
-            1 => Coll::Range(Expr::int(1), Expr::var("b")),
+            // the bound is a dedicated, never-assigned small integer: a bound taken from a name
+            // that programs capture digits into can become astronomically large (outside the
+            // "widths <= 10^4" bound of the properties, and an allocation abort in practice)
+            1 => Coll::Range(Expr::int(1), Expr::var("n")),
             2 => Coll::Expr(self.expr(lv)),
             3 => Coll::Expr(Expr::var("d")),
             _ => Coll::Expr(Expr::var("a")),
@@ -405,6 +408,7 @@ impl<'a> Gen<'a> {
             .collect());
         kv.push(("a".into(), a));
         kv.push(("b".into(), RVal::Int(self.rng.range(0, 5))));
+        kv.push(("n".into(), RVal::Int(self.rng.range(0, 5))));
         kv.push(("c".into(), s(self.rng.choose(&["", "a", "hello world", "é", "3"]))));
         let d = if self.rng.chance(1, 6) { self.value(0) } else { obj(vec![("k", self.value(1))]) };
         kv.push(("d".into(), d));
